@@ -24,11 +24,14 @@ def ex_fcp(repo):
 
 def obligations():
     return [
-        KModelOb('O7.1-quorum', 'fcp', 'quorum_q', 'finalize_check_points (real text): a write happens only if ONE set of >= ceil(max_outbound/2) '
+        KModelOb('O7.1-quorum', 'fcp', 'quorum_q2', 'finalize_check_points (real text): a write happens only if ONE set of >= ceil(max_outbound/2) '
                  'proven peers agrees on the old final value and on every newly final value; written range starts at last+1; the final '
                  'index strictly increases and is written after the values; a peer contradicting the final value is banned, a consistent '
-                 'one is not', ex_fcp, '<=3 peers, vectors <=3, max_outbound in 1..4 (quorum 1..2), 3 distinct values; unwind 7',
+                 'one is not; a quorum agreeing on the next check point is not blocked by fewer deviating / silent peers than the quorum', ex_fcp,
+                 '<=3 peers, vectors <=3, max_outbound in 1..4 (quorum 1..2), 2 distinct values; unwind 7',
                  cuts=CUTS, timeout=1500, mem_gb=12, tiers=('quick',), min_covers=2, weight=6),
+        KModelOb('O7.1-quorum-3v', 'fcp', 'quorum_q', 'as O7.1 with 3 distinct check-point values', ex_fcp, '<=3 peers, vectors <=3, max_outbound in 1..4, 3 distinct values',
+                 cuts=CUTS, timeout=3000, mem_gb=12, tiers=('thorough',), min_covers=2, weight=6),
         KModelOb('O7.1-quorum-t', 'fcp', 'quorum_t', 'as O7.1 at the larger bound', ex_fcp, '<=4 peers, vectors <=4, max_outbound 1..6 (quorum 1..3)',
                  cuts=CUTS, timeout=3300, mem_gb=24, tiers=('thorough',), min_covers=2, weight=9),
         KModelOb('O7.2-required', 'fcp', 'required_count', 'required_peers_count = ceil(max_outbound/2) >= 1 for every u32 >= 1', ex_fcp,
